@@ -133,7 +133,7 @@ pub fn e1_check(id: &str) -> Option<Check> {
                 deciding: &["O-cas", "O-lin", "O-chain", "O-rcu"],
                 rule: "compare_and_swap with current in {just loaded, stale handle, never stored, null} in every accepted form (&T, Guard, &Guard, raw), new in {fresh, re-stored handle, null}; competitors change and restore the pointer (A-B-A). Oracle: success <=> result pointer-equal to current <=> the pointer word was written by this call; failed CAS releases the rejected new; linearizable. Non-trivial: a competing write landed between the internal load and the exchange, or a value was re-stored (A-B-A) in a case with CAS.",
                 nontrivial: |_, o| (o.hs.cas_success + o.hs.cas_fail > 0) && (o.stats.cas_interfered > 0 || o.hs.restore_same > 0 || o.hs.aba_identity > 0),
-                quick: 100_000,
+                quick: 160_000,
                 thorough: 2_000_000,
                 fixup: nofix,
                 template: None,
